@@ -101,6 +101,10 @@ func cbpChildCfg(addr, bucket, group string) *config.Dcp {
 		"heartbeatToleranceDuration": cbTolerance.String(),
 		"timeout":                    "5s",
 	}
+	// a shorter operation time-out for this process (stream c10cb, op mb-cb-slowread)
+	if t := os.Getenv("VERIF_C10P_TIMEOUT"); t != "" {
+		cfg.Dcp.Group.Membership.Config["timeout"] = t
+	}
 	return cfg
 }
 
@@ -180,10 +184,11 @@ type cbpChild struct {
 	err    error
 }
 
-func cbpStartChild(addr, bucket, group string) (*cbpChild, error) {
+func cbpStartChild(addr, bucket, group string, extraEnv ...string) (*cbpChild, error) {
 	ch := &cbpChild{lines: make(chan string, 64), done: make(chan struct{})}
 	ch.cmd = exec.Command(os.Args[0])
 	ch.cmd.Env = append(os.Environ(), "VERIF_CHILD=c10pause", "VERIF_C10P_ADDR="+addr, "VERIF_C10P_BUCKET="+bucket, "VERIF_C10P_GROUP="+group)
+	ch.cmd.Env = append(ch.cmd.Env, extraEnv...)
 	ch.cmd.Stderr = &ch.stderr
 	var err error
 	if ch.stdin, err = ch.cmd.StdinPipe(); err != nil {
